@@ -73,6 +73,12 @@ type c05Step struct {
 	// connection (or the start) and the arrival of this one. While a Read waits for it, the read
 	// deadline in force on the connection can expire (virtual clock, see c05World.vnow).
 	PauseMs int64 `json:"pause_ms,omitempty"`
+	// Over != 0: a broken source (e.g. a message-oriented wrapper reporting the size of the whole
+	// record): the Read that starts this step fills the caller's whole buffer with the step's bytes
+	// (N must be >= the buffer size) but reports len(buffer)+Over bytes (Over < 0: MaxInt32). The
+	// bytes really handed over are the buffer's; the connection has broken the Read contract, which
+	// counts as a failure of that side.
+	Over int `json:"over,omitempty"`
 }
 
 // c05WF is an injected result of the Call-th Write on a connection. Accept >= 0: that many bytes are
@@ -81,6 +87,9 @@ type c05WF struct {
 	Call   int    `json:"call"`
 	Accept int    `json:"accept"`
 	Err    string `json:"err,omitempty"`
+	// Then "zero": every later Write on the connection accepts nothing and returns (0, nil) - a
+	// destination that makes no progress any more without ever reporting an error.
+	Then string `json:"then,omitempty"`
 }
 
 // c05DF makes the Call-th SetDeadline issued by direction Dir (0 up, 1 down; -1: Call counts every
@@ -128,6 +137,7 @@ type c05Ev struct {
 	WG    int           // close / close-ret: WaitGroup counter at that moment (-1 unknown)
 	Sync  bool          // close: issued on a halfPipe's own goroutine (not by the detached `go closeConn(src)`)
 	VT    time.Duration // virtual time of the call
+	Over  int           // read: the call reported this many bytes although only N fit into the buffer
 	// read time-outs produced by the virtual clock (the read deadline in force expired while the
 	// connection was silent): when and by which call that deadline had been set, and its value
 	DLDriven bool
@@ -588,6 +598,13 @@ func (c *c05Conn) read(d int, p []byte) (int, error) {
 			}
 			copy(p, c.stream[c.pos:c.pos+n])
 			off := c.pos
+			over := 0
+			if st.Over != 0 && c.off == 0 && n == len(p) {
+				over = len(p) + st.Over
+				if st.Over < 0 {
+					over = 1<<31 - 1
+				}
+			}
 			c.pos += n
 			c.off += n
 			kind := ""
@@ -601,7 +618,10 @@ func (c *c05Conn) read(d int, p []byte) (int, error) {
 			if n == 0 && kind == "" && st.N != 0 {
 				continue
 			}
-			c.ev(c05Ev{Dir: d, Op: "read", N: n, Off: off, Err: kind, Fault: kind != "" || st.N == 0})
+			c.ev(c05Ev{Dir: d, Op: "read", N: n, Off: off, Err: kind, Fault: kind != "" || st.N == 0 || over != 0, Over: over})
+			if over != 0 {
+				return over, c.mkErr(kind, "read")
+			}
 			return n, c.mkErr(kind, "read")
 		}
 		switch c.s.End {
@@ -677,6 +697,14 @@ func (c *c05Conn) write(d int, p []byte) (int, error) {
 				kind = f.Err
 				e.Fault = kind != "" || n < len(p)
 				break
+			}
+		}
+		if !e.Fault {
+			for _, f := range c.s.WF {
+				if f.Then == "zero" && f.Call < idx {
+					n, kind = 0, ""
+					e.Fault = true
+				}
 			}
 		}
 	}
